@@ -12,6 +12,7 @@ struct VProgram {
     int bound = 2;                 // preemption bound to complete (bounds 0..bound are run in turn)
     bool unlock_points = false;    // extra scheduling point after every unlock
     int horizon = 20000;
+    bool single_schedule = false;  // only the default schedule is executed (a program too large to enumerate: one run, reported as such, never counted as exhaustive)
     bool stateful = false;         // explore ALL schedules (no preemption bound), pruned at states that were reached before; needs a complete state_cb (and park_cb for waiter-local state)
     bool stateful_audit = false;   // audit: same search without cutting off at visited states (every schedule is executed); must reach exactly the same set of states
     void (*park_cb)(int tid) = nullptr;
